@@ -29,7 +29,7 @@ BOUND = 3.5      # seconds after the limit: one hook period plus os.time()'s one
 
 
 def run(run):
-    run.rule = ("non-terminating bodies (tight loop, loop calling string/table library functions, pattern matching loop, deep "
+    run.rule = ("programs generated from the grammar of Model.Timeout (model verdict vs the real sandbox); non-terminating bodies (tight loop, loop calling string/table library functions, pattern matching loop, deep "
                 "recursion) and a terminating control, under 11 wrappers (none, pcall, pcall in a loop, xpcall, xpcall in a loop, "
                 "nested pcall, coroutine, coroutines in a loop, clearing the hook, raising the limit, error-then-loop) and in 7 places "
                 "(top level of the invoked / a required / a data module, after or inside a nested invocation, after sequences of nested "
@@ -170,6 +170,115 @@ def run(run):
                 run.property_failure("c07:context-unusable-after:%s" % key, "after the invocation, %r expanded to %r" % (t, f), c)
         if r["stack"] != ["Tt"] or r["env"] != 0:
             run.property_failure("c07:state-left:%s" % key, "expand_stack %r, lua_env_stack %d" % (r["stack"], r["env"]), c)
+    model_tie(run, quick)
+
+
+# ---------------------------------------------------------------- Model/Timeout.v against the real sandbox on generated programs
+def diverges(p):
+    k = p[0]
+    if k in ("loop", "forever"):
+        return True
+    if k == "seq":
+        return diverges(p[1]) or diverges(p[2])
+    return False
+
+
+def gen_prog(rng, depth, in_forever=False):
+    """a program of Model.Timeout.prog; inside 'while true', a pcall / nested invocation always wraps something that does not
+    return by itself (whether the hook fires inside or outside a pcall whose body returns is a race the model does not decide)"""
+    r = rng.random()
+    if depth <= 0 or r < 0.25:
+        return rng.choice([("fin",), ("loop",), ("fin",), ("clear",), ("raise",)]) if rng.random() < 0.85 else ("loop",)
+    if r < 0.5:
+        return ("seq", gen_prog(rng, depth - 1, in_forever), gen_prog(rng, depth - 1, in_forever))
+    if r < 0.62:
+        return ("forever", gen_prog(rng, depth - 1, True))
+    q = gen_prog(rng, depth - 1, in_forever)
+    if in_forever and not diverges(q):
+        q = ("seq", q, ("loop",))
+    return ("pcall" if r < 0.85 else "nested", q)
+
+
+def prog_lua(p, mods):
+    k = p[0]
+    if k == "fin":
+        return "local _x = 1"
+    if k == "loop":
+        return "while true do end"
+    if k == "seq":
+        return prog_lua(p[1], mods) + " " + prog_lua(p[2], mods)
+    if k == "forever":
+        return "while true do " + prog_lua(p[1], mods) + " end"
+    if k == "pcall":
+        return "pcall(function() " + prog_lua(p[1], mods) + " end)"
+    if k == "nested":
+        name = "sub%d" % len(mods)
+        mods[name] = None
+        mods[name] = "local e = {}\nfunction e.main(frame) " + prog_lua(p[1], mods) + " return 'r' end\nreturn e"
+        return "local _n = frame:preprocess('{{#invoke:%s|main}}')" % name
+    if k == "clear":
+        return "_lua_clear_timeout_hook()"
+    return "_lua_set_timeout(59)"
+
+
+def prog_coq(p):
+    k = p[0]
+    if k in ("seq",):
+        return "Seq (%s) (%s)" % (prog_coq(p[1]), prog_coq(p[2]))
+    if k in ("forever", "pcall", "nested"):
+        return "%s (%s)" % ({"forever": "Forever", "pcall": "Pcall", "nested": "Nested"}[k], prog_coq(p[1]))
+    return {"fin": "Finite 0", "loop": "Loop", "clear": "ClearHook", "raise": "RaiseLimit 2000"}[k]
+
+
+OUTCOMES = {0: "returns normally", 1: "is stopped with the timeout element", 2: "is still running long after the limit"}
+
+
+def model_tie(run, quick):
+    """programs of the model's grammar compiled to Lua and run for real (limit 1 s, killed from outside after 12 s): the model's
+    verdict - returns / stopped at the deadline / not stopped - against what happened"""
+    rng = run.rng
+    fixed = [("loop",), ("fin",), ("seq", ("pcall", ("loop",)), ("fin",)), ("seq", ("pcall", ("loop",)), ("loop",)),
+             ("forever", ("pcall", ("loop",))), ("seq", ("clear",), ("loop",)), ("nested", ("loop",)),
+             ("forever", ("nested", ("loop",))), ("seq", ("nested", ("loop",)), ("loop",)), ("forever", ("fin",)),
+             ("pcall", ("seq", ("clear",), ("loop",))), ("seq", ("raise",), ("loop",))]
+    progs = fixed + [gen_prog(rng, rng.randint(1, 4)) for _ in range(24 if quick else 240)]
+    seen, uniq = set(), []
+    for p in progs:
+        if repr(p) not in seen:
+            seen.add(repr(p)); uniq.append(p)
+    cases = []
+    for p in uniq:
+        mods = {}
+        body = prog_lua(p, mods) + " return 'done'"
+        cases.append({"body": body, "extra": mods, "timeout": 1, "followups": [], "_timeout": 13, "prog": repr(p)})
+    res = []
+    for i in range(0, len(cases), 12):
+        part = cases[i:i + 12]
+        res += lib.run_impl("c07", part, shards=len(part), timeout=14)
+    coq_cases, kept = [], []
+    for p, c, r in zip(uniq, cases, res):
+        run.count(["prog", c["prog"]], True, "model-programs")
+        if r.get("outcome") in ("harness-timeout", "timeout") or (r.get("outcome") == "ok" and r["dt"] > 1 + BOUND + 4):
+            got = 2           # (the harness's own alarm at 13 s may end the run inside a Python callback: still "not stopped")
+        elif r.get("outcome") == "ok" and "Lua timeout error" in r["out"]:
+            got = 1 if r["dt"] <= 1 + BOUND else 2
+        elif r.get("outcome") == "ok" and "done" in r["out"]:
+            got = 0
+        else:
+            run.correspondence_break("a program of the timeout model's grammar did not run as compiled", c, result=r)
+            continue
+        coq_cases.append("(%s, %d%%nat)" % (prog_coq(p), got))
+        kept.append((c, got))
+    defs = ("Definition verdict (p : prog) : nat := match exec 150 p (mkst 0 true 10) with\n"
+            "  | Some (Ok _) => 0 | Some (Timeout s') => if Nat.ltb 1000 (now s') then 2 else 1 | Some Hung => 2 | None => 2 end.\n")
+    bad, errs = lib.coq_eval_failing("c07m", ["Model.Timeout"], "prog * nat", coq_cases, "fun '(p, o) => Nat.eqb (verdict p) o",
+                                     chunk=100, extra_defs=defs)
+    for e in errs:
+        run.correspondence_break("model evaluation failed (timeout programs)", None, error=e)
+    for b in bad:
+        c, got = kept[b]
+        run.correspondence_break("Model.Timeout.exec disagrees with the sandbox: the program %s" % OUTCOMES[got], c)
+    run.extra["model_programs_run"] = len(coq_cases)
 
 
 def replay(data):
